@@ -72,17 +72,88 @@ Definition F_S_HINT := bs "op.hint".
 Definition F_S_EOS := bs "op.eos".
 Definition F_S_OPS := bs "ops".
 
-Fixpoint cmp_results (idx : N) (m o : list val) : list val :=
+(* The size hint and the end-of-stream flag are functions of how much has been delivered; they are
+   compared wherever model and implementation have delivered the same number of bytes (dm, di: bytes
+   delivered so far) -- everywhere when the framing agrees, at the common cut points when it does not. *)
+Definition data_len (r : val) : N := match r with VB d => lenN d | _ => 0 end.
+Fixpoint cmp_results (idx dm di : N) (m o : list val) : list val :=
   match m, o with
   | [], [] => []
   | VL [mr; mw; mh; me] :: m', VL [orr; ow; oh; oe] :: o' =>
+      let dm' := dm + data_len mr in
+      let di' := di + data_len orr in
       let f := cmp_field F_S_RES (VL [VN idx; mr]) (VL [VN idx; orr])
                ++ cmp_field F_S_WOKEN (VL [VN idx; mw]) (VL [VN idx; ow])
-               ++ cmp_field F_S_HINT (VL [VN idx; mh]) (VL [VN idx; oh])
-               ++ cmp_field F_S_EOS (VL [VN idx; me]) (VL [VN idx; oe]) in
+               ++ (if dm' =? di' then
+                     cmp_field F_S_HINT (VL [VN idx; mh]) (VL [VN idx; oh])
+                     ++ cmp_field F_S_EOS (VL [VN idx; me]) (VL [VN idx; oe])
+                   else []) in
       (* keep comparing after a difference: a later field may be the one a property constrains *)
-      f ++ cmp_results (idx + 1) m' o'
+      f ++ cmp_results (idx + 1) dm' di' m' o'
   | _, _ => [finding K_DIVERGE F_S_OPS (VL m) (VL o)]
+  end.
+
+(* ---- derived fields: independent of how the body is cut into frames ---- *)
+Definition F_S_WRES := bs "op.wres".
+Definition F_S_WEOS := bs "op.weos".
+Definition F_S_DELIVERED := bs "stream.delivered".
+Definition F_S_END := bs "stream.end".
+Definition F_S_HDR_VARY := bs "hdr:vary".
+Definition F_S_HDR_CE := bs "hdr:content-encoding".
+Definition is_producer (o : cop) : bool :=
+  match o with OWrite _ | OWriteAll _ | OFlush | OAbort | ODropWriter => true | _ => false end.
+(* results and end-of-stream samples of the producer's operations only *)
+Fixpoint cmp_producer (idx : N) (ops : list cop) (m o : list val) : list val :=
+  match ops, m, o with
+  | op :: ops', VL [mr; _; _; me] :: m', VL [orr; _; _; oe] :: o' =>
+      (if is_producer op
+       then cmp_field F_S_WRES (VL [VN idx; mr]) (VL [VN idx; orr]) ++ cmp_field F_S_WEOS (VL [VN idx; me]) (VL [VN idx; oe])
+       else [])
+      ++ cmp_producer (idx + 1) ops' m' o'
+  | _, _, _ => []
+  end.
+(* what the consumer received over the history: the data, and the first terminal event
+   (0 none, 1 clean end, 2 error, 3 panic) *)
+Fixpoint received (rs : list val) : bytes * N :=
+  match rs with
+  | [] => ([], 0)
+  | VL (r :: _) :: t =>
+      match r with
+      | VL [VN 5] => ([], 1)
+      | VL [VN 6] => ([], 2)
+      | VL [VN 9] => ([], 3)
+      | VB d => let (x, k) := received t in (d ++ x, k)
+      | _ => received t
+      end
+  | _ :: t => received t
+  end.
+(* the model polled on, after the history, until its terminal event *)
+Fixpoint drain_model (fuel : nat) (s : cstate) : list val :=
+  match fuel with
+  | O => []
+  | S f =>
+      let '(s1, r, _) := cstep s (OPoll 0) in
+      match r with
+      | RPoll (Some (Some (Some d))) => VL [VB d] :: drain_model f s1
+      | RPoll None => []                                   (* Pending: nothing more will come without the producer *)
+      | _ => [VL [of_copres r]]
+      end
+  end.
+Fixpoint final_state (s : cstate) (ops : list cop) : cstate :=
+  match ops with [] => s | o :: t => final_state (fst (fst (cstep s o))) t end.
+Definition cmp_received (s0 : cstate) (ops : list cop) (mres ores : list val) : list val :=
+  let (od, ok) := received ores in
+  if (ok =? 0) || negb (c_reader (final_state s0 ops)) then []      (* not drained to the end by the implementation: no claim *)
+  else
+    let sf := final_state s0 ops in
+    let (md, mk) := received (mres ++ (if snd (received mres) =? 0 then drain_model (S (S (match c_st sf with SOk ready _ _ => length ready | _ => O end))) sf else [])) in
+    cmp_field F_S_END (VN mk) (VN ok)
+    (* after an abort what was delivered before it depends on the framing: only the clean end fixes the bytes *)
+    ++ (if (mk =? 1) && (ok =? 1) then cmp_field F_S_DELIVERED (VB md) (VB od) else []).
+Definition hdr_vals_s (name : bytes) (h : val) : val :=
+  match h with
+  | VL l => VL (flat_map (fun kv => match kv with VL [VB k; v] => if beq_bytes k name then [v] else [] | _ => [] end) l)
+  | _ => VL []
   end.
 
 Definition model_hdrs (i : stinput) : val :=
@@ -322,9 +393,14 @@ Definition run_stream (v : val) : val :=
               let tag := (if gz then bs "gzip" else bs "raw") ++ (if has_writer i then [] else bs ":head") in
               let common :=
                 cmp_field F_S_HDRS (model_hdrs i) ohdrs
+                ++ cmp_field F_S_HDR_VARY (hdr_vals_s (bs "vary") (model_hdrs i)) (hdr_vals_s (bs "vary") ohdrs)
+                ++ cmp_field F_S_HDR_CE (hdr_vals_s (bs "content-encoding") (model_hdrs i)) (hdr_vals_s (bs "content-encoding") ohdrs)
                 ++ cmp_field F_S_WRITER (of_bool (has_writer i)) ow
                 ++ cmp_field F_S_HINT0 mh0 oh0 ++ cmp_field F_S_EOS0 me0 oe0 in
-              let model_part := if gz then [] else firstn 12 (cmp_results 0 (model_results s0 (s_ops i)) ores) in
+              let mres := model_results s0 (s_ops i) in
+              let model_part := if gz then [] else firstn 12 (cmp_results 0 0 0 mres ores)
+                                                    ++ firstn 12 (cmp_producer 0 (s_ops i) mres ores)
+                                                    ++ cmp_received s0 (s_ops i) mres ores in
               let oracle :=
                 match vall dec_sobsop ores with
                 | None => [finding K_BAD (bs "stream-obs") (VL []) (VL [])]
@@ -338,7 +414,9 @@ Definition run_stream (v : val) : val :=
                     ++ (if has_writer i && (0 <? s_cap i) then disconnect_walk (negb gz) (s_cap i) 0 false false z else [])
                     ++ scheck (hints_ok z) "C12" "hint-bounds-bytes-still-to-come"
                     ++ (* C17: headers *)
-                       scheck (val_eqb ohdrs (model_hdrs i)) "C17" "vary-and-content-encoding-match-negotiation"
+                       scheck (val_eqb (hdr_vals_s (bs "vary") ohdrs) (VL [VB (bs "accept-encoding")])
+                               && val_eqb (hdr_vals_s (bs "content-encoding") ohdrs) (hdr_vals_s (bs "content-encoding") (model_hdrs i)))
+                              "C17" "vary-and-content-encoding-match-negotiation"
                     ++ scheck (val_eqb ow (of_bool (has_writer i))) "C17" "writer-iff-not-head"
                     ++ (* C17: without Content-Encoding the body is the written bytes verbatim *)
                        (let header_gzip := match ohdrs with
